@@ -15,7 +15,7 @@ from fractions import Fraction
 import numpy as np
 
 from .. import core
-from ..core import Check, MachineryError, run_tlc
+from ..core import pyf, Check, MachineryError, run_tlc
 
 S_SUS = 8.0
 M_HOST = 4.0
@@ -66,7 +66,7 @@ def run(tier, seed):
         raise MachineryError("too few states exported by TLC: %d" % len(rows))
     import TidalPy  # noqa
     from TidalPy.tides.modes import mode_manipulation as MM
-    calc, coll = MM.calculate_terms.py_func, MM.collapse_modes.py_func
+    calc, coll = pyf(MM.calculate_terms), pyf(MM.collapse_modes)
     seen = set()
     nz = 0
     worst = 0.0
